@@ -10,6 +10,8 @@ import (
 	"fmt"
 	"golang.org/x/text/collate"
 	"golang.org/x/text/language"
+	"math"
+	"math/bits"
 	"math/rand"
 	"reflect"
 	"runtime"
@@ -18,6 +20,8 @@ import (
 	"strconv"
 	"strings"
 	"sync"
+	"sync/atomic"
+	"unsafe"
 
 	art "github.com/Clement-Jean/go-art"
 )
@@ -75,8 +79,79 @@ func (b *callerBuf) scribble() {
 	}
 }
 
+//go:noinline
+func peek(p *byte) byte { return *p }
+
+// aliasTransient: while one goroutine makes read-only calls with a key cut from a larger buffer, another keeps looking at
+// the bytes of that buffer – the key itself and what lies behind it. A write that is undone before the call returns
+// (invisible to a before/after comparison) is seen here, and reported by the race detector in builds that have it.
+func aliasTransient(tr *transcript, r *rand.Rand) {
+	for _, spec := range []string{"alpha bytes", "coll bytes root"} {
+		t := newTree(spec)
+		raw := t.Raw().(art.Tree[[]byte, int])
+		keys := []string{"token", "tokens", "tokenize", "toward", "zebra", strings.Repeat("k", 70)}
+		for i, k := range keys {
+			raw.Insert([]byte(k), i)
+		}
+		for _, probe := range []string{"token", "tokenizer", strings.Repeat("k", 70), "absent"} {
+			arr := make([]byte, len(probe)+16)
+			for i := range arr {
+				arr[i] = 0xEE
+			}
+			copy(arr, probe)
+			want := append([]byte{}, arr...)
+			key := arr[:len(probe):len(arr)]
+			var stop, seen atomic.Int64
+			done := make(chan struct{})
+			go func() {
+				defer close(done)
+				for stop.Load() == 0 {
+					for i := range arr {
+						if peek(&arr[i]) != want[i] {
+							seen.Add(1)
+						}
+					}
+				}
+			}()
+			fault := ""
+			func() {
+				defer func() {
+					if rec := recover(); rec != nil {
+						fault = "PANIC:" + strings.ReplaceAll(fmt.Sprint(rec), " ", "_")
+					}
+				}()
+				for i := 0; i < 6000; i++ {
+					raw.Search(key)
+					for range raw.Prefix(key) {
+						break
+					}
+					for range raw.Range(key, key) {
+						break
+					}
+					if probe == "absent" || probe == "tokenizer" {
+						raw.Delete(key)
+					}
+				}
+			}()
+			stop.Store(1)
+			<-done
+			name := fmt.Sprintf("assert 0 caller-buffer-never-seen-modified-during-read-only-calls/%s/len=%d", strings.ReplaceAll(spec, " ", "_"), len(probe))
+			switch {
+			case fault != "":
+				tr.emit(name, fault)
+			case seen.Load() > 0:
+				tr.emit(name, fmt.Sprintf("a-concurrent-reader-saw-%d-foreign-bytes", seen.Load()))
+			default:
+				tr.emit(name, "ok")
+			}
+			tr.stats["alias-transient-watches"]++
+		}
+	}
+}
+
 func runAliasMode(seed int64, n int, tr *transcript) {
 	r := rand.New(rand.NewSource(seed))
+	aliasTransient(tr, r)
 	type variant struct {
 		spec string
 		mk   func() (drvTree, func(k []byte) any)
@@ -369,7 +444,44 @@ func runMemMode(seed int64, n int, sub string, tr *transcript) {
 	if sub == "" {
 		memDroppedTree(tr, slack)
 		memChurnVsFresh(tr, slack)
+		memDenseDrain(tr, slack)
 	}
+}
+
+// memDenseDrain: a dense tree (consecutive integers: thousands of wide nodes) emptied key by key, then dropped: neither
+// the emptied tree nor anything the library keeps on the side retains what the keys needed.
+func memDenseDrain(tr *transcript, slack int64) {
+	defer func() {
+		if rec := recover(); rec != nil {
+			tr.emit("assert 0 no-panic-during-memory-run/dense-drain", "PANIC:"+strings.ReplaceAll(fmt.Sprint(rec), " ", "_"))
+		}
+	}()
+	const n = 1 << 18
+	base := int64(liveHeap())
+	t := art.NewUnsignedBinaryTree[uint32, int]()
+	for i := uint32(0); i < n; i++ {
+		t.Insert(i, int(i))
+	}
+	full := int64(liveHeap()) - base
+	for i := uint32(0); i < n; i++ {
+		t.Delete(i)
+	}
+	emptied := int64(liveHeap()) - base
+	name := fmt.Sprintf("assert 0 dense-tree-emptied-key-by-key-retains-a-small-constant/keys=%d", n)
+	if t.Size() != 0 || emptied > slack {
+		tr.emit(name, fmt.Sprintf("size=%d,full=%d,emptied=%d", t.Size(), full, emptied))
+	} else {
+		tr.emit(name, "ok")
+	}
+	runtime.KeepAlive(t)
+	t = nil
+	dropped := int64(liveHeap()) - base
+	if dropped > slack {
+		tr.emit("assert 0 dropped-dense-tree-leaves-nothing-behind", fmt.Sprintf("retained=%d", dropped))
+	} else {
+		tr.emit("assert 0 dropped-dense-tree-leaves-nothing-behind", "ok")
+	}
+	tr.stats["mem-dense-drain"]++
 }
 
 // memChurnVsFresh: two trees holding the same keys – one built in one go, one that reached the same content through
@@ -714,6 +826,57 @@ func runRaceMode(seed int64, n int, tr *transcript) {
 		tr.lines += bytes.Count(outs[g].Bytes(), []byte("\n"))
 	}
 	tr.stats["race-private-goroutines"] = G
+	// (a') private trees oscillating around every class boundary at the same time: all goroutines take nodes of one
+	// class from the shared pool and give them back within microseconds of one another
+	for _, bd := range [][2]int{{3, 6}, {12, 18}, {37, 50}} {
+		var owg sync.WaitGroup
+		bad := make([]string, G)
+		for g := 0; g < G; g++ {
+			g := g
+			owg.Add(1)
+			go func() {
+				defer owg.Done()
+				defer func() {
+					if rec := recover(); rec != nil {
+						bad[g] = "PANIC:" + strings.ReplaceAll(fmt.Sprint(rec), " ", "_")
+					}
+				}()
+				t := art.NewUnsignedBinaryTree[uint16, int]()
+				key := func(b int) uint16 { return uint16(g+1)<<8 | uint16(b) }
+				for b := 0; b < bd[0]; b++ {
+					t.Insert(key(b), b)
+				}
+				for cyc := 0; cyc < 400*n && bad[g] == ""; cyc++ {
+					for b := bd[0]; b < bd[1]; b++ {
+						t.Insert(key(b), b)
+					}
+					cnt := 0
+					for k, v := range t.All() {
+						if k != key(cnt) || v != cnt {
+							bad[g] = fmt.Sprintf("foreign-or-misplaced-entry:key=%#x,value=%d,position=%d", k, v, cnt)
+							break
+						}
+						cnt++
+					}
+					if bad[g] == "" && (cnt != bd[1] || t.Size() != bd[1]) {
+						bad[g] = fmt.Sprintf("All=%d,Size=%d,want=%d", cnt, t.Size(), bd[1])
+					}
+					for b := bd[0]; b < bd[1]; b++ {
+						t.Delete(key(b))
+					}
+				}
+			}()
+		}
+		owg.Wait()
+		out := "ok"
+		for _, b := range bad {
+			if b != "" {
+				out = b
+			}
+		}
+		tr.emit(fmt.Sprintf("assert 0 private-trees-oscillating-around-%d-children-keep-their-own-keys", bd[0]+1), out)
+		tr.stats["race-oscillations"]++
+	}
 	// (b) one quiescent tree, many readers
 	r := rand.New(rand.NewSource(seed))
 	for i, spec := range []string{"alpha string", "num u32", "num f64", "comp u8,i16,s"} {
@@ -1054,6 +1217,69 @@ func gcCrossType(tr *transcript, r *rand.Rand) {
 	tr.stats["gc-cross-type"]++
 }
 
+// gcAddressKeys: integer and float keys whose bytes, read as a machine word in either byte order, are addresses
+// inside the Go heap – of live objects and of memory that has been freed. A key is data: the collector must never
+// take it for a pointer.
+func gcAddressKeys(tr *transcript, r *rand.Rand) {
+	fail := ""
+	func() {
+		defer func() {
+			if rec := recover(); rec != nil {
+				fail = "PANIC:" + strings.ReplaceAll(fmt.Sprint(rec), " ", "_")
+			}
+		}()
+		var addrs []uint64
+		live := make([][]byte, 64)
+		for i := range live {
+			live[i] = make([]byte, 1<<14)
+			addrs = append(addrs, uint64(uintptr(unsafe.Pointer(&live[i][r.Intn(1<<14)]))))
+		}
+		for k := 0; k < 8; k++ {
+			dead := make([]byte, 8<<20)
+			for j := 0; j < 32; j++ {
+				addrs = append(addrs, uint64(uintptr(unsafe.Pointer(&dead[r.Intn(len(dead))]))))
+			}
+			dead = nil
+		}
+		runtime.GC()
+		runtime.GC()
+		u := art.NewUnsignedBinaryTree[uint64, int]()
+		s := art.NewSignedBinaryTree[int64, int]()
+		f := art.NewFloatBinaryTree[float64, int]()
+		up := art.NewUnsignedBinaryTree[uint, int]()
+		for i, a := range addrs {
+			for _, v := range []uint64{a, bits.ReverseBytes64(a), a ^ 1<<63, bits.ReverseBytes64(a) ^ 1<<63, bits.ReverseBytes64(a ^ 1<<63)} {
+				u.Insert(v, i)
+				s.Insert(int64(v), i)
+				f.Insert(math.Float64frombits(v), i)
+				up.Insert(uint(v), i)
+			}
+			if i%16 == 0 {
+				runtime.GC()
+			}
+		}
+		for k := 0; k < 3; k++ {
+			runtime.GC()
+		}
+		n := 0
+		for range u.All() {
+			n++
+		}
+		if n != u.Size() {
+			fail = fmt.Sprintf("All=%d,Size=%d", n, u.Size())
+		}
+		runtime.KeepAlive(live)
+		runtime.KeepAlive(s)
+		runtime.KeepAlive(f)
+		runtime.KeepAlive(up)
+	}()
+	if fail == "" {
+		fail = "ok"
+	}
+	tr.emit("assert 0 keys-that-look-like-heap-addresses-survive-gc", fail)
+	tr.stats["gc-address-keys"]++
+}
+
 func runGCMode(seed int64, n int, tr *transcript) {
 	r := rand.New(rand.NewSource(seed))
 	gcForValue(tr, "int", func(i int) int { return i * 3 }, r, n)
@@ -1063,6 +1289,7 @@ func runGCMode(seed int64, n int, tr *transcript) {
 	gcForValue(tr, "big", func(i int) bigVal { var b bigVal; b.a[0], b.a[15] = uint64(i), uint64(i)*7; return b }, r, n)
 	gcForValue(tr, "zero-size", func(i int) struct{} { return struct{}{} }, r, n)
 	gcCrossType(tr, r)
+	gcAddressKeys(tr, r)
 	keys := make([]string, 0, len(tr.stats))
 	for k := range tr.stats {
 		keys = append(keys, k)
